@@ -431,8 +431,10 @@ class AnalyzerContext:
     @contextlib.contextmanager
     def quoted(self):
         self._is_quoted.append(True)
-        yield
-        self._is_quoted.pop()
+        try:
+            yield
+        finally:
+            self._is_quoted.pop()
 
     @property
     def should_allow_unresolved_symbols(self) -> bool:
@@ -482,8 +484,10 @@ class AnalyzerContext:
         many nested function contexts."""
         func_ctx = FunctionContext(context_type)
         self._func_ctx.append(func_ctx)
-        yield func_ctx
-        self._func_ctx.pop()
+        try:
+            yield func_ctx
+        finally:
+            self._func_ctx.pop()
 
     @property
     def recur_point(self) -> RecurPoint | None:
@@ -502,8 +506,10 @@ class AnalyzerContext:
         many recur points, though only one may be active at any given time for a
         node."""
         self._recur_points.append(RecurPoint(loop_id, args=args))
-        yield
-        self._recur_points.pop()
+        try:
+            yield
+        finally:
+            self._recur_points.pop()
 
     @property
     def symbol_table(self) -> SymbolTable:
@@ -572,8 +578,10 @@ class AnalyzerContext:
             self.warn_on_unused_names,
         ) as st:
             self._st.append(st)
-            yield st
-            self._st.pop()
+            try:
+                yield st
+            finally:
+                self._st.pop()
 
     @contextlib.contextmanager
     def hide_parent_symbol_table(self):
